@@ -77,6 +77,8 @@ func TestCheck(t *testing.T) {
 	r.Require("stack_cachepop_pairs_noad-then-ad", 30)
 	r.Require("stack_cachepop_first_answer_carried_its_ecs_option", 30)
 	r.Require("stack_cachepop_later_alone_answer_has_ad", 30)
+	r.Require("stack_cachepop_later_hits_spelled_differently_from_first", 100)
+	r.Require("stack_requests_with_mixed_case_spelling", 300)
 	// simple-cache configuration: histories miss -> fresh hit (released) -> pool
 	// draws of the same record type -> later hits must really have happened
 	r.Require("stack_simplecache_histories_with_fresh_hit_and_later_hit", 32)
